@@ -14,6 +14,7 @@ AssignVerdict(ev) ==
     (IF P_Assigned(sm, ev.sphys, dm, ev.after) THEN {} ELSE {V("P_AssignByColour", "None", key, [smap |-> ev.smap, dmap |-> ev.dmap, src |-> ev.sphys, got |-> ev.after])})
     \cup (IF ev.eq /\ ~ev.ne THEN {} ELSE {V("P_EqualAfterAssign", "None", key, [eq |-> ev.eq, ne |-> ev.ne])})
     \cup (IF Has(ev, "eq_same") /\ ~ev.eq_same THEN {V("P_EqualByColour", "None", key, "two destination objects holding the same colours compare unequal")} ELSE {})
+    \cup (IF Has(ev, "others_kept") /\ ~ev.others_kept THEN {V("P_AssignByColour", "None", key, "assignment changed a pixel other than its destination")} ELSE {})
     \cup (IF ev.eq_perturbed = FALSE THEN {} ELSE {V("P_EqualDetectsDifference", "None", key, "dst == src although one colour differs")})
 AssignDrift(ev) ==
     LET sm == M1(ev.smap) dm == M1(ev.dmap) IN
@@ -24,6 +25,9 @@ AccessVerdict(ev) ==
     (IF \A k \in 1..n : ev.atc[k] = ev.phys[k] THEN {} ELSE {V("P_AtCPhysical", "None", key, [phys |-> ev.phys, atc |-> ev.atc])})
     \cup (IF \A s \in 1..n : ev.sem[s] = Sem(m, ev.phys, s) THEN {} ELSE {V("P_SemanticAtC", "None", key, [phys |-> ev.phys, sem |-> ev.sem, map |-> ev.map])})
     \cup (IF Has(ev, "named") /\ ev.named # ev.sem THEN {V("P_GetColor", "None", key, [named |-> ev.named, sem |-> ev.sem])} ELSE {})
+    \* the value type of the s-th colour is the value type of the physical channel that holds it
+    \cup (IF Has(ev, "sem_max") /\ \E s \in 1..n : ev.sem_max[s] # Sem(m, ev.phys_max, s)
+          THEN {V("P_SemanticAtC", "None", key \o ":element-type", [map |-> ev.map, physical_max |-> ev.phys_max, semantic_max |-> ev.sem_max])} ELSE {})
     \cup (IF Has(ev, "index") /\ ev.index # ev.phys THEN {V("P_IndexPhysical", "None", key, [index |-> ev.index, phys |-> ev.phys])} ELSE {})
 
 StaticVerdict(ev) ==
